@@ -498,6 +498,14 @@ func OpaqueValue(load string) *pb.TypedValue {
 	}
 	body := load[1:]
 	switch load[0] {
+	case 'D': // gNMI 0.8+ double_val
+		return &pb.TypedValue{Value: &pb.TypedValue_DoubleVal{DoubleVal: 2.5}}
+	case 'P':
+		return &pb.TypedValue{Value: &pb.TypedValue_ProtoBytes{ProtoBytes: []byte{1, 2}}}
+	case 'Y':
+		return &pb.TypedValue{Value: &pb.TypedValue_AnyVal{}}
+	case 'L': // a leaf-list without its array
+		return &pb.TypedValue{Value: &pb.TypedValue_LeaflistVal{}}
 	case 'b':
 		bs, _ := hex.DecodeString(body)
 		return &pb.TypedValue{Value: &pb.TypedValue_BytesVal{BytesVal: bs}}
@@ -525,6 +533,27 @@ func OpaqueValue(load string) *pb.TypedValue {
 				}
 			case 'x': // a member of an unsupported kind
 				arr.Element = append(arr.Element, &pb.TypedValue{Value: &pb.TypedValue_JsonVal{JsonVal: []byte("{}")}})
+			case 'm': // members of the kinds the leaf-list conversion does not know, one letter each, after supported ones
+				for _, k := range body[1:] {
+					switch k {
+					case 's':
+						arr.Element = append(arr.Element, &pb.TypedValue{Value: &pb.TypedValue_StringVal{StringVal: "a"}})
+					case 'n': // an element without a value (a nested omission)
+						arr.Element = append(arr.Element, &pb.TypedValue{})
+					case 'z': // a nil element
+						arr.Element = append(arr.Element, nil)
+					case 'D':
+						arr.Element = append(arr.Element, &pb.TypedValue{Value: &pb.TypedValue_DoubleVal{DoubleVal: 1.5}})
+					case 'l':
+						arr.Element = append(arr.Element, &pb.TypedValue{Value: &pb.TypedValue_LeaflistVal{LeaflistVal: &pb.ScalarArray{}}})
+					case 'a':
+						arr.Element = append(arr.Element, &pb.TypedValue{Value: &pb.TypedValue_AnyVal{}})
+					case 'p':
+						arr.Element = append(arr.Element, &pb.TypedValue{Value: &pb.TypedValue_ProtoBytes{ProtoBytes: []byte{1}}})
+					case 'j':
+						arr.Element = append(arr.Element, &pb.TypedValue{Value: &pb.TypedValue_JsonIetfVal{JsonIetfVal: []byte("{}")}})
+					}
+				}
 			}
 		}
 		return &pb.TypedValue{Value: &pb.TypedValue_LeaflistVal{LeaflistVal: arr}}
